@@ -217,7 +217,7 @@ fn main() {
     }
     // B. compound units
     let n_comp = args.count(1200, 20000);
-    let exps: &[(i128, i128)] = &[(1, 1), (1, 1), (-1, 1), (2, 1), (-2, 1), (3, 1), (-3, 1), (1, 2), (-1, 2)];
+    let exps: &[(i128, i128)] = &[(1, 1), (1, 1), (-1, 1), (2, 1), (-2, 1), (3, 1), (-3, 1), (1, 2), (-1, 2), (3, 2), (-3, 2), (4, 3), (5, 2), (2, 3), (1, 3), (5, 3), (7, 4)];
     for _ in 0..n_comp {
         let k = 2 + rng.below(3);
         let mut shape = Vec::new();
@@ -251,6 +251,49 @@ fn main() {
         let tgt = units.random_simple(&mut rng, &units.by_dim[d2]);
         let c = Case { src: q(random_magnitude(&mut rng).to_bits(), src), tgt, via: None };
         run_case(&ctx, &units, &mut out, &c);
+    }
+    // E. display stream through the interpreter: `a -> k u` and `(a -> k u) -> w`, with k = 1 or not:
+    // displayed in exactly the requested unit, as a multiple of the target iff its magnitude is not 1, and a
+    // display target of an earlier conversion never survives
+    for _ in 0..args.count(300, 4000) {
+        let d = *rng.pick(&multi);
+        let rows = &units.by_dim[d];
+        let u = |rng: &mut Rng| vec![units.factor(*rng.pick(rows), (false, 0), 1, 1)];
+        let (ua, ub, uc) = (u(&mut rng), u(&mut rng), u(&mut rng));
+        let va = ((rng.unit_f64() * 200.0 - 100.0) * 16.0).round() / 16.0;
+        let kb = *rng.pick(&[1.0f64, 1.0, 45.0, 0.01, 100.0, 2.5]);
+        let kc = *rng.pick(&[1.0f64, 1.0, 1.0, 30.0, 0.5]);
+        let (a, b, c) = (q(va.to_bits(), ua), q(kb.to_bits(), ub), q(kc.to_bits(), uc));
+        let two = rng.chance(1, 2);
+        let src = if two { format!("({} -> {}) -> {}", q_src(&a), q_src(&b), q_src(&c)) } else { format!("{} -> {}", q_src(&a), q_src(&b)) };
+        let mut cx = ctx.clone();
+        let res = catch(std::panic::AssertUnwindSafe(|| match cx.interpret(&src, numbat::resolver::CodeSource::Internal) {
+            Ok((_, numbat::InterpreterResult::Value(v))) => (numbat::verif::c03::describe_value(&v), format!("{}", v.pretty_print())),
+            _ => (None, String::new()),
+        }));
+        let Ok((Some(dv), text)) = res else { out.count("display_stream_no_value"); continue };
+        let req = if two { format!("vmconv2 {} {} {}", q_text(&a), q_text(&b), q_text(&c)) } else { format!("vmconv {} {}", q_text(&a), q_text(&b)) };
+        out.line(&req, &canon_nan(&numbat::verif::c03::show_quantity(&dv)));
+        out.case(&format!("display {}", src), true);
+        out.count("display_stream_cases");
+        let last = if two { &c } else { &b };
+        let k = f64::from_bits(last.bits);
+        let key = format!("convert-display:{}", src);
+        if show_unit(&dv.factors) != show_unit(&last.factors) {
+            out.oracle_fail(&key, &format!("conv {} {} -", q_text(&a), show_unit(&last.factors)), &format!("`{}` is displayed in unit {} instead of {}", src, show_unit(&dv.factors), show_unit(&last.factors)));
+        }
+        match (&dv.target, k != 1.0) {
+            (None, false) => {
+                if text.contains('×') { out.oracle_fail(&key, &src, &format!("`{}` is displayed as `{}` although the target has magnitude 1", src, text)); }
+            }
+            (Some(t), true) => {
+                if t.bits != last.bits || show_unit(&t.factors) != show_unit(&last.factors) || !text.contains('×') {
+                    out.oracle_fail(&key, &src, &format!("`{}` is displayed as `{}`: not a multiple of the requested target", src, text));
+                }
+            }
+            (Some(_), false) => out.oracle_fail(&key, &src, &format!("`{}` is displayed as `{}`: a multiple of a stale target although the requested unit has magnitude 1", src, text)),
+            (None, true) => out.oracle_fail(&key, &src, &format!("`{}` is displayed as `{}`: not as a multiple of the target of magnitude {}", src, text, k)),
+        }
     }
     // D. thorough: every ordered pair of same-dimension units
     if args.tier == "thorough" {
